@@ -185,6 +185,9 @@ impl<Octs> Txt<Octs> {
         Octs: AsRef<[u8]>,
     {
         let len = parser.remaining();
+        if len == 0 {
+            return Err(ParseError::form_error("empty TXT record data"));
+        }
         LongRecordData::check_len(len)?;
         let text = parser.parse_octets(len)?;
         let mut tmp = Parser::from_ref(text.as_ref());
